@@ -130,8 +130,10 @@ def runScript (f : Facts) (sc : Scen) : Json := Id.run do
       -- a call that can already return does so before it would notice how the connection goes on
       let canReturn := (readyCases f cfg s i).contains .answer
       if canReturn then
-        -- a reset may destroy what the client has not read yet; a cancel issued right after the write may win the race
-        let racy := sc.fault = .reset || (sc.fault = .stall && sc.ctx == "cancel")
+        -- a reset may destroy what the client has not read yet; a cancel issued right after the write may win the race;
+        -- the child's death cancels the transport context while the reader is still handing over what the child wrote: the
+        -- call's select then has two ready cases
+        let racy := sc.fault = .reset || sc.fault = .kill || sc.fault = .exit || (sc.fault = .stall && sc.ctx == "cancel")
         let (s', o) := finish f cfg s i racy
         s := s'
         outs := outs.set! i (o.getD "hung")
@@ -212,6 +214,12 @@ def handle (op : String) (j : Json) : Except String Json := do
     let cfg : Cfg := { t := .streamJson, getSSE := true }
     let s := apply f cfg (init cfg) [.closeBegin, .closeEnd, .starterRun]
     pure (Json.mkObj [("streams", Json.num (JsonNumber.fromNat (b2n s.stream)))])
+  | "doubleClose" =>
+    -- Close() closes the channel of a call that is still on its way out (the witness schedule of `C08_double_close_witness`)
+    let f := factsOf tb .stdio
+    let cfg : Cfg := { t := .stdio }
+    let s := apply f cfg (init cfg) [.issue 0, .procExit, .closeBegin, .closeEnd, .complete 0 .tctx]
+    pure (Json.mkObj [("outcome", Json.str (match (s.calls 0).returned with | some r => resStr r | none => "hung"))])
   | _ => throw s!"calls: unknown op {op}"
 
 end Mcp.Drv.Calls
